@@ -1,4 +1,5 @@
 import Resynth.Lemmas.InterpInvStmt
+import Resynth.Lemmas.StmtsKeep
 import Resynth.Model.Cli
 /-!
 # Lemmas: `processFile` = front end (writer-independent) + batch execution
@@ -34,14 +35,25 @@ def planLines (f : Front) (lno : Nat) : List Bytes → List (List Stmt) × Excep
           let r := planLines ⟨lo.pending, ⟨lno, lo.endCol⟩, cfg.takeResults.2⟩ (lno + 1) rest
           (cfg.takeResults.1 :: r.1, r.2)
 
-/-- run the batches; a failing batch ends the run with the state *before* that batch -/
+/-- run the batches, one statement at a time; a failing statement ends the run with the state reached
+*at that statement* (the statements before it in the same batch have taken effect) -/
 def runBatches (env : Env) (st : PState) : List (List Stmt) → Except FileRun PState
   | [] => .ok st
   | b :: bs =>
-    match addStmts env st b with
+    match keepResult (addStmtsKeep env st b) with
     | .ok st' => runBatches env st' bs
-    | .err e loc => .error (finish st (.failure e.cls (errDetail e) loc))
-    | .panic s => .error (finish st (.panic s))
+    | .error r => .error r
+
+/-- the three ways a batch can go -/
+theorem keepResult_cases (k : Kept) :
+    (∃ st', k = (st', none) ∧ keepResult k = .ok st') ∨
+    (∃ st1 e loc, k = (st1, some (.inl (e, loc))) ∧
+      keepResult k = .error (finish st1 (.failure e.cls (errDetail e) loc))) ∨
+    (∃ st1 x, k = (st1, some (.inr x)) ∧ keepResult k = .error (finish st1 (.panic x))) := by
+  rcases k with ⟨st1, _ | ⟨⟨e, loc⟩ | x⟩⟩
+  · exact .inl ⟨st1, rfl, rfl⟩
+  · exact .inr (.inl ⟨st1, e, loc, rfl, rfl⟩)
+  · exact .inr (.inr ⟨st1, x, rfl, rfl⟩)
 
 theorem lineLoop_eq (env : Env) : ∀ (lines : List Bytes) (ls : LoopSt) (lno : Nat),
     lineLoop env ls lno lines =
@@ -68,10 +80,9 @@ theorem lineLoop_eq (env : Env) : ∀ (lines : List Bytes) (ls : LoopSt) (lno : 
         cases h3 : feedToks ls.cfg lo.toks with
         | error ol => cases ol <;> simp [runBatches]
         | ok cfg =>
-          simp only [runStmts, runBatches]
-          cases h4 : addStmts env ls.st cfg.takeResults.1 with
-          | err e l => simp
-          | panic x => simp
+          simp only [runStmts_eq, runBatches]
+          cases h4 : keepResult (addStmtsKeep env ls.st cfg.takeResults.1) with
+          | error r => simp
           | ok st' =>
             simp only []
             rw [ih]
@@ -142,10 +153,46 @@ theorem runBatches_append (env : Env) (bs cs : List (List Stmt)) : ∀ (st : PSt
   | cons a bs ih =>
     intro st
     simp only [List.cons_append, runBatches]
-    cases addStmts env st a with
-    | err e l => simp
-    | panic x => simp
+    cases keepResult (addStmtsKeep env st a) with
+    | error r => simp
     | ok st' => simp only []; rw [ih]
+
+/-- the batch boundaries do not matter: running the batches is running the flattened statement list
+as one batch — also for the state a failing run stops in -/
+theorem runBatches_flatten (env : Env) : ∀ (bs : List (List Stmt)) (st : PState),
+    runBatches env st bs = keepResult (addStmtsKeep env st bs.flatten)
+  | [], st => rfl
+  | b :: bs, st => by
+    simp only [runBatches, List.flatten_cons, addStmtsKeep_append]
+    rcases addStmtsKeep env st b with ⟨st1, _ | ⟨⟨e, loc⟩ | x⟩⟩
+    · simp only [keepResult]; exact runBatches_flatten env bs st1
+    · rfl
+    · rfl
+
+/-- Running batch by batch against `addStmts` on the flattened statement list: the same statements run,
+the same one fails (if any) with the same error; the state reported on failure is the one in which the
+failing STATEMENT was executed (all statements before it have taken effect). -/
+theorem runBatches_addStmts (env : Env) (bs : List (List Stmt)) (st : PState) :
+    match addStmts env st bs.flatten with
+    | .ok st' => runBatches env st bs = .ok st'
+    | .err e loc => ∃ pre s post st1, bs.flatten = pre ++ s :: post ∧ addStmts env st pre = .ok st1 ∧
+        addStmt env st1 s = .err e loc ∧
+        runBatches env st bs = .error (finish st1 (.failure e.cls (errDetail e) loc))
+    | .panic x => ∃ pre s post st1, bs.flatten = pre ++ s :: post ∧ addStmts env st pre = .ok st1 ∧
+        addStmt env st1 s = .panic x ∧
+        runBatches env st bs = .error (finish st1 (.panic x)) := by
+  rw [runBatches_flatten, addStmts_eq_of_keep]
+  rcases hk : addStmtsKeep env st bs.flatten with ⟨st1, _ | ⟨⟨e, loc⟩ | x⟩⟩
+  · rfl
+  · obtain ⟨pre, s, post, h1, h2, h3⟩ := (addStmtsKeep_err_iff env _ st st1 e loc).1 hk
+    exact ⟨pre, s, post, st1, h1, h2, h3, rfl⟩
+  · obtain ⟨pre, s, post, h1, h2, h3⟩ := (addStmtsKeep_panic_iff env _ st st1 x).1 hk
+    exact ⟨pre, s, post, st1, h1, h2, h3, rfl⟩
+
+/-- batch boundaries do not matter for a run: it is the run of the flattened statement list -/
+theorem execFrom_flatten (env : Env) (fin : Option Outcome) (st : PState) (bs : List (List Stmt)) :
+    execFrom env fin st bs = execFrom env fin st [bs.flatten] := by
+  simp only [execFrom, runBatches_flatten, List.flatten_cons, List.flatten_nil, List.append_nil]
 
 theorem processFile_eq (env : Env) (budget : Option Nat) (src : Bytes) :
     processFile env budget src = execPlan env budget (planOf src) := by
@@ -204,10 +251,9 @@ theorem processFile_eq (env : Env) (budget : Option Nat) (src : Bytes) :
       | error r => simp
       | ok st =>
         rcases hL with ⟨p, rfl, h'⟩ | ⟨rfl, rfl⟩ <;>
-        · simp only [Lex.finish, Option.map_some, Option.map_none, *, runStmts, runBatches]
-          cases addStmts env st cfg.takeResults.1 with
-          | err e l => simp
-          | panic x => simp
+        · simp only [Lex.finish, Option.map_some, Option.map_none, *, runStmts_eq, runBatches]
+          cases keepResult (addStmtsKeep env st cfg.takeResults.1) with
+          | error r => simp
           | ok st' =>
             simp only []
 
@@ -225,10 +271,11 @@ theorem runBatches_cases {env : Env} (P : PState → Prop)
   | cons b bs ih =>
     intro st hp
     simp only [runBatches]
-    cases h : addStmts env st b with
-    | err e l => exact ⟨st, _, hp, rfl, by simp⟩
-    | panic x => exact ⟨st, _, hp, rfl, by simp⟩
-    | ok st' => exact ih st' (addStmts_induct P step b st st' hp h)
+    have hk := addStmtsKeep_induct P step b st hp
+    rcases keepResult_cases (addStmtsKeep env st b) with ⟨st', h1, h2⟩ | ⟨st1, e, loc, h1, h2⟩ | ⟨st1, x, h1, h2⟩
+    · rw [h2]; rw [h1] at hk; exact ih st' hk
+    · rw [h2]; rw [h1] at hk; exact ⟨st1, _, hk, rfl, by simp⟩
+    · rw [h2]; rw [h1] at hk; exact ⟨st1, _, hk, rfl, by simp⟩
 
 /-- how a run ends -/
 inductive Ending (st : PState) : FileRun → Prop
@@ -354,13 +401,13 @@ theorem runBatches_ok {env : Env} (bs : List (List Stmt)) : ∀ {st st' : PState
     intro st st' h
     simp only [runBatches] at h
     rw [List.flatten_cons, addStmts_append]
-    cases h1 : addStmts env st b with
-    | err e l => simp [h1] at h
-    | panic x => simp [h1] at h
-    | ok s1 =>
-      simp only [h1] at h
+    rcases keepResult_cases (addStmtsKeep env st b) with ⟨s1, h1, h2⟩ | ⟨s1, e, loc, h1, h2⟩ | ⟨s1, x, h1, h2⟩
+    · rw [h2] at h
+      rw [(addStmtsKeep_none_iff env b st s1).1 h1]
       simp only [Res.bind_ok_eq]
       exact ih h
+    · rw [h2] at h; cases h
+    · rw [h2] at h; cases h
 
 theorem execFrom_success {env : Env} {fin : Option Outcome} (hfin : fin ≠ some .success) {st : PState}
     {bs : List (List Stmt)} (h : (execFrom env fin st bs).outcome = .success) :
@@ -381,5 +428,20 @@ theorem execFrom_success {env : Env} {fin : Option Outcome} (hfin : fin ≠ some
     | none =>
       simp only []
       split <;> rfl
+
+/-! ## a run stopped by a statement: the statements before the failing one have taken effect -/
+
+/-- If the statements of a run fail (`addStmts` on all of them, in order, reports `e` at `loc`), the run
+ends with that error in the state `st1` reached by the statements before the failing one `s` — wherever
+the batch boundaries are. -/
+theorem execFrom_stmt_err {env : Env} {fin : Option Outcome} {st : PState} {bs : List (List Stmt)}
+    {e : ErrKind} {loc : Loc} (h : addStmts env st bs.flatten = .err e loc) :
+    ∃ pre s post st1, bs.flatten = pre ++ s :: post ∧ addStmts env st pre = .ok st1 ∧
+      addStmt env st1 s = .err e loc ∧
+      execFrom env fin st bs = finish st1 (.failure e.cls (errDetail e) loc) := by
+  have hb := runBatches_addStmts env bs st
+  rw [h] at hb
+  obtain ⟨pre, s, post, st1, h1, h2, h3, h4⟩ := hb
+  exact ⟨pre, s, post, st1, h1, h2, h3, by unfold execFrom; rw [h4]⟩
 
 end Resynth
